@@ -321,4 +321,97 @@ theorem chain_hb {cfg : Cfg} {l : L} (hc : HHC cfg) (hmc : startsWith l.text Gen
         · exact Or.inl ⟨h1.trans hacc1, h2⟩
         · exact Or.inr ⟨by rw [h1, hacc1, c.n], h2⟩
 
+-- one step ------------------------------------------------------------------------
+
+theorem text_of_hh {l : L} (h : startsWith l.text Generated.Markers.hunkHeader = true) :
+    ∃ rest, l.text = '@' :: rest := by
+  cases ht : l.text with
+  | nil => rw [ht] at h; simp [startsWith, Generated.Markers.hunkHeader, List.isPrefixOf] at h
+  | cons c rest =>
+    rw [ht] at h
+    simp only [startsWith, Generated.Markers.hunkHeader, List.isPrefixOf, Bool.and_eq_true, beq_iff_eq] at h
+    exact ⟨rest, by rw [h.1]⟩
+
+/-- a hunk-header line that is not a commit line, met outside a conflict region in a non-plain-diff
+input, is claimed by `handle_hunk_header_line`: the state afterwards is the pending header -/
+theorem hh_line_chain {cfg : Cfg} {m m' : M} {l : L} (hl : isHHLine l = true) (hcr : l.commitRe = false)
+    (hs : isMergeConflict m.st = false)
+    (e : chain cfg l Generated.handlerOrder m = .ok m') : isHunkHeader m'.st = true := by
+  unfold isHHLine at hl
+  simp only [Bool.and_eq_true] at hl
+  obtain ⟨hsw, hparse⟩ := hl
+  obtain ⟨rest, ht⟩ := text_of_hh hsw
+  have e1 := handleCommitMeta_not_mine cfg m l hcr
+  have e3 := handleDiffHeaderDiff_not_mine cfg m l (startsWith_false_of_head ht (d := 'd') rfl (by decide))
+  have e4 := handleFileOperation_not_mine cfg m l
+    (by simp [startsWithAny, Generated.Markers.fileOperationLine, startsWith, ht, List.isPrefixOf])
+  have e5 := handleMinusLine_not_mine cfg m l
+    (by simp [minusLineTest, startsWithAny, Generated.Markers.minusLine, startsWith, ht, List.isPrefixOf])
+  have e6 := handlePlusLine_not_mine cfg m l
+    (by simp [plusLineTest, startsWithAny, Generated.Markers.plusLine, startsWith, ht, List.isPrefixOf])
+  simp only [Generated.handlerOrder, chain, handlerOf, e1, handleDiffStat, e3, e4, e5, e6] at e
+  unfold handleHunkHeader at e
+  simp only [hsw, hs, Bool.not_false, Bool.and_self, Bool.not_true, Bool.false_eq_true, if_false] at e
+  cases hp : parseHunkHeader l.text with
+  | none => rw [hp] at hparse; cases hparse
+  | some hh =>
+    simp only [hp] at e
+    cases e
+    rfl
+
+/-- what the input must guarantee about a line when a hunk header is pending -/
+def HunkBodyG (l : L) : Prop := HunkBody l ∧ l.submodule = none
+
+/-- **one step of the hunk-header accounting** (git-style source, no conflict regions): the index of
+the current line is appended to `hacct` iff the line is a hunk-header line -/
+theorem step_hh {cfg : Cfg} {m m' : M} {l : L} (hc : HHC cfg) (hs : isMergeConflict m.st = false) (g : Good m)
+    (hsrc : m.source = .gitDiff) (hmc : startsWith l.text Generated.Markers.mcBegin = false)
+    (hcr : isHHLine l = true → l.commitRe = false) (hf : pend m = [] ∨ HunkBodyG l)
+    (e : step cfg m l = .ok m') :
+    isMergeConflict m'.st = false ∧ Good m' ∧ m'.source = .gitDiff ∧ m'.n = m.n + 1 ∧
+      hacct m' = hacct m ++ (if isHHLine l then [m.n] else []) ∧ (pend m' = [] ∨ isHHLine l = true) := by
+  have g' := (step_spec e g).1
+  unfold step at e
+  have hinit : stepInit m l = m := by unfold stepInit; simp [hsrc]
+  rw [hinit] at e
+  split at e
+  · cases e
+  · rename_i m2 e2
+    cases e
+    have hsrc' : m.source ≠ .diffUnified := by rw [hsrc]; decide
+    by_cases hp : pend m = []
+    · -- nothing pending: the chain as a whole
+      have c := chain_hb hc hmc _ e2 hs g hp
+      have hsource2 : m2.source = .gitDiff := c.source.trans hsrc
+      cases hl : isHHLine l
+      · rcases c.eff with ⟨h1, h2⟩ | ⟨_, h2⟩
+        · exact ⟨c.nomc, g', hsource2, by show m2.n + 1 = _; rw [c.n], by show hacct m2 = _; simpa using h1, Or.inl h2⟩
+        · rw [hl] at h2; cases h2
+      · have hhst := hh_line_chain hl (hcr hl) hs e2
+        rcases c.eff with ⟨_, h2⟩ | ⟨h1, _⟩
+        · exfalso
+          have : pend m2 ≠ [] := by
+            unfold pend
+            cases hst : m2.st <;> simp_all [isHunkHeader]
+          exact this h2
+        · exact ⟨c.nomc, g', hsource2, by show m2.n + 1 = _; rw [c.n], by show hacct m2 = _; simpa using h1, Or.inr rfl⟩
+    · -- a header is pending: the line is a hunk-body line and goes to `handle_hunk_line`
+      have hb : HunkBodyG l := hf.resolve_left hp
+      have hhs : isHunkState m.st = true := hunkState_of_hh (hh_of_pend hp)
+      rw [hunk_body_chain cfg m l hsrc' hhs hb.1 hb.2 hmc] at e2
+      cases hh : handleHunkLine cfg m l with
+      | error err => simp [hh] at e2
+      | ok pr =>
+        obtain ⟨b, m2'⟩ := pr
+        simp only [hh] at e2
+        cases e2
+        obtain ⟨_, hn', hnomc, hsrcs, hp', hsource'⟩ := handleHunkLine_hh hc hhs g hh
+        have hnot : isHHLine l = false := by
+          unfold isHHLine
+          rw [startsWith_false_of_bodyHead hb.1.2 nonBody_hunkHeader]; rfl
+        refine ⟨hnomc, g', hsource'.trans hsrc, by show m2.n + 1 = _; rw [hn'], ?_, Or.inl hp'⟩
+        rw [hnot]
+        show hhSrcs m2 ++ pend m2 = _
+        rw [hsrcs, hp']; simp
+
 end Machine
